@@ -317,7 +317,7 @@ void regressions() {
   { SU_vector e, v(3); v = e; }
   SU_vector::clear_mem_cache();
   CHECK(ledger::live_blocks() == live0, "C15|blocks-not-released-at-quiescence", "regression: the block of a vector assigned from an empty one was never released");
-  // 0f4870f: library exceptions for dimension-0 operands must not leak (new[] ledger here, LeakSanitizer at exit for the GSL objects)
+  // 04d9060: library exceptions for dimension-0 operands must not leak (new[] ledger here, LeakSanitizer at exit for the GSL objects)
   {
     SU_vector e, e2, owner0(3); owner0 = e;  // owner0: dimension 0 but owning
     for (int k = 0; k < 6; k++) {
